@@ -1015,9 +1015,13 @@ class Dilator:
     # stopped too.
     def stop(self):
         if self._manager:
-            self._manager.stop()
-            # TODO: avoid Deferreds for control flow, hard to serialize
-            self._manager.when_stopped().addCallback(lambda _: self._T.stoppedD())
+            try:
+                self._manager.stop()
+            finally:
+                # (also when the application's status callback, which stop()
+                # runs, raises: the Manager has stopped by then)
+                # TODO: avoid Deferreds for control flow, hard to serialize
+                self._manager.when_stopped().addCallback(lambda _: self._T.stoppedD())
         else:
             self._T.stoppedD()
             return
